@@ -102,6 +102,7 @@ func Build(s Spec, mons ...vnet.Monitor) *Built {
 	var cfg vnet.Config
 	hooks := &vnet.Hooks{}
 	adv := false
+	rejecting := false
 	initTx := 0
 	switch s.Profile {
 	case "sync-perm":
@@ -176,6 +177,40 @@ func Build(s Spec, mons ...vnet.Monitor) *Built {
 		cfg.K = vnet.Knobs{PDup: 0.05, PEarlyTimer: 0.008, PAdvance: 0.01, PDelayReset: 0.3, PNewTx: 0.06, PTxMissing: 0.5,
 			PSupply: 0.1, PUnasked: 0.01, PSyncLedger: 0.002, SlowNode: -1, ResetDelayNode: -1}
 		initTx = 2 + r.Intn(8)
+		rejecting = true
+	case "valset":
+		// validator set size / membership / order / own index change between heights; all honest
+		cfg = baseConfig(s, r, Opt{Ns: []int{4, 5, 6, 7}, MinH: 3, MaxH: 5})
+		cfg.Watchers = 1 + r.Intn(3)
+		cfg.K = vnet.Knobs{PDrop: 0.01, PDup: 0.08, PEarlyTimer: 0.004, PStaleTimer: 0.01, PAdvance: 0.01, PDelayReset: 0.6,
+			PNewTx: 0.02, PTxMissing: 0.1, PSupply: 0.15, PSyncLedger: 0.01, SlowNode: -1, ResetDelayNode: -1}
+		total := cfg.N + cfg.Watchers
+		vseed := s.Seed
+		minN := 1 + r.Intn(4)
+		cfg.ValSchedule = func(idx uint32) []int {
+			rr := rand.New(rand.NewSource(vseed ^ int64(idx)*2654435761))
+			n := minN + rr.Intn(total-minN+1)
+			return rr.Perm(total)[:n]
+		}
+		initTx = r.Intn(6)
+	case "watch":
+		// one validator of the list runs with the watch-only flag; extra nodes outside the list observe
+		cfg = baseConfig(s, r, Opt{Ns: []int{4, 4, 5, 6, 7}, MinH: 3, MaxH: 5, Dyn: 1})
+		cfg.Watchers = r.Intn(3)
+		cfg.K.Sync = true
+		cfg.K.PDup = 0.05
+		cfg.K.NotifyAll = true
+		cfg.K.PNewTx = 0.02
+		cfg.WatchFlag = make([]bool, cfg.N+cfg.Watchers)
+		cfg.WatchFlag[r.Intn(cfg.N)] = true
+		if r.Intn(2) == 0 {
+			cfg.LatMin, cfg.LatMax = cfg.TPB/100, cfg.TPB/100
+		}
+		if cfg.BaseHeight == 0 {
+			cfg.BaseHeight = 1
+		}
+		cfg.MaxClock = time.Duration(cfg.Heights) * 200 * cfg.TPB
+		initTx = r.Intn(6)
 	default:
 		panic("unknown profile " + s.Profile)
 	}
@@ -194,6 +229,16 @@ func Build(s Spec, mons ...vnet.Monitor) *Built {
 	}
 	for i := 0; i < initTx; i++ {
 		c.AddTx(false, cfg.K.PTxMissing)
+	}
+	if rejecting {
+		// some verifiers reject the completed block of some (height, view 0)
+		for _, n := range c.Nodes {
+			for h := 1; h <= cfg.Heights; h++ {
+				if r.Intn(4) == 0 {
+					n.RejectBlocks[[2]uint32{cfg.BaseHeight + uint32(h), 0}] = true
+				}
+			}
+		}
 	}
 	if s.Profile == "dyn" {
 		// transactions appear never / before the minimum / at random instants of the extended wait
